@@ -59,7 +59,7 @@ def parse_probe(ans):
         return dict(kind="crash", cls=ans[6:])
     if ans.startswith("ub:"):
         return dict(kind="ub", what=ans[3:])
-    if ans in ("timeout", "oom", "diverge"):
+    if ans in ("timeout", "oom", "diverge", "skipped"):
         return dict(kind=ans)
     return dict(kind="garbled", raw=ans[:200])
 
@@ -83,7 +83,7 @@ def parse_spec(ans):
 
 def same_answer(impl, model):
     """correspondence: identical text, or the model's `ub`/`diverge` against a crash / a limit"""
-    if impl == model:
+    if impl == model or impl == "skipped":
         return True
     if model.startswith("ub:") and impl.startswith("crash"):
         return True
@@ -353,6 +353,23 @@ class WFGen:
             w, n = self.word(max(1, (budget - total)))
             words.append(w)
             total += n
+            if w[0] == "plain" and not w[1][-1:].isdigit() and len(w[1]) < 40 and rng.random() < 0.35:
+                # an un-numbered name directly followed by the same name with a number starting at 0/1, padded and
+                # unpadded, as a word or as a range (tail coalescing must keep the two kinds of record apart)
+                base = w[1]
+                k = rng.choice([0, 1, 1, 1, 2])
+                shape = rng.random()
+                if shape < 0.4:
+                    nxt = ("plain", base + self.numtext(k, rng.choice([1, 1, 2, 3])))
+                    cnt = 1
+                else:
+                    hi = k + rng.choice([0, 1, 3, 5])
+                    nxt = ("br", base, [(self.numtext(k, rng.choice([1, 1, 2])), str(hi).encode() if hi > k or rng.random() < 0.5 else None)],
+                           b"", None)
+                    cnt = hi - k + 1
+                words.append(nxt)
+                total += cnt
+                self.note("plain-then-numbered")
             if total >= budget:
                 break
         seps = [b",", b",", b",", b" ", b"\t", b", ", b",,", b" ,\t ", b"  "]
@@ -532,19 +549,37 @@ class HL:
         self.exe = os.path.join(ctx.scratch, "hl_harness")
         self.env = dict(os.environ, ASAN_OPTIONS="detect_leaks=0:allocator_may_return_null=1:symbolize=0")
         self.nfork = 0
+        self.gave_up = False
         self.ndiverge = 0
 
     # buffer sizes that are literals inside function bodies (not reachable by the constants probe): the model
-    # carries them as CURTOK / HOSTBUF / iterSuffix / NTHBUF; a change in the source must be mirrored there
-    LITERALS = [r"char\s+cur_tok\[1024\]", r"strncpy\(cur_tok, tok, sizeof \(cur_tok\) - 1\)", r"char\s+host\[4096\]",
-                r"snprintf \(host, 4096,", r"char\s+suffix\[16\]", r"snprintf \(suffix, 15,",
-                r"char\s+buf\[MAXHOSTNAMELEN \+ 16\]", r"size = strlen\(hr->prefix\) \+ hr->width \+ 16;"]
+    # carries them as CURTOK / HOSTBUF / iterSuffix / NTHBUF.  Each belongs to a recorded defect; as long as the
+    # behavioural probe (harness/consts/hostlist.c -> Gen/Hostlist.lean FIX_*) says the defect is still there,
+    # the literal the model mirrors must still be in the source.
+    LITERALS = {"FIX_D18_CURTOK": [r"char\s+cur_tok\[1024\]", r"strncpy\(cur_tok, tok, sizeof \(cur_tok\) - 1\)"],
+                "FIX_D23_HOSTBUF": [r"char\s+host\[4096\]", r"snprintf \(host, 4096,"],
+                "FIX_D17_ITERSUFFIX": [r"char\s+suffix\[16\]", r"snprintf \(suffix, 15,"],
+                "FIX_D24_NTH": [r"char\s+buf\[MAXHOSTNAMELEN \+ 16\]"],
+                None: [r"size = strlen\(hr->prefix\) \+ hr->width \+ 16;"]}
+
+    def probed(self):
+        """the defect switches probed from /repo by gen_consts (what the model is run with)"""
+        from vlib.common import LEAN_DIR
+        out = {}
+        try:
+            for m in re.finditer(r"def (FIX_\w+) : Bool := (true|false)",
+                                 open(os.path.join(LEAN_DIR, "PdshVerif", "Gen", "Hostlist.lean")).read()):
+                out[m.group(1)] = m.group(2) == "true"
+        except OSError:
+            pass
+        return out
 
     def build(self):
         from vlib.common import REPO
+        flags = self.probed()
         try:
             src = open(os.path.join(REPO, "src/common/hostlist.c"), errors="replace").read()
-            gone = [l for l in self.LITERALS if not re.search(l, src)]
+            gone = [l for k, ls in self.LITERALS.items() if not flags.get(k, False) for l in ls if not re.search(l, src)]
         except OSError as e:
             gone = [str(e)]
         if gone:
@@ -562,7 +597,20 @@ class HL:
 
     def impl(self, lines, timeout=900):
         """one answer per line; a crash of the in-process harness is attributed to its line"""
-        res = run_batch([self.exe], [[l] for l in lines], timeout=timeout, env=self.env)
+        res = []
+        ncrash = 0
+        for k in range(0, len(lines), 2000):
+            if ncrash > 40:
+                # the implementation keeps dying or hanging: every further case costs seconds; stop comparing
+                res.extend([(["skipped"], None)] * (len(lines) - k))
+                if not self.gave_up:
+                    self.gave_up = True
+                    self.ctx.broken.append(("C-BROKEN", "hl harness", "more than 40 crashes / timeouts of the in-process "
+                                            "harness in one batch: the remaining cases of this run were not executed"))
+                break
+            part = run_batch([self.exe], [[l] for l in lines[k:k + 2000]], timeout=timeout, env=self.env)
+            ncrash += sum(1 for _, c in part if c is not None)
+            res.extend(part)
         out = []
         for ans, crash in res:
             if crash is not None or not ans:
